@@ -44,6 +44,15 @@ impl Deserialize for CaptureDeserializer {
     type Config = CaptureConfig;
     fn deserialize(&self, config: CaptureConfig, _: &Deserializers) -> anyhow::Result<Box<dyn log4rs::append::Append>> {
         let instance = self.built.fetch_add(1, Ordering::SeqCst) + 1;
+        // in the YAML rendering the tag is the document's last node, a block scalar that keeps its trailing line
+        // breaks: "v<b>" followed by c line breaks stands for version b + 2 (c - 1) - two versions whose texts differ
+        // in nothing but white space at the very end (text_rate)
+        let mut config = config;
+        let breaks = config.tag.len() - config.tag.trim_end_matches('\n').len();
+        if breaks > 0 {
+            let b: i64 = config.tag.trim_end_matches('\n').trim_start_matches('v').parse().unwrap_or(-1);
+            config.tag = format!("v{}", b + 2 * (breaks as i64 - 1));
+        }
         if config.tag == "v3" && !self.slow_v3.is_zero() {
             std::thread::sleep(self.slow_v3);
         }
@@ -82,9 +91,13 @@ pub fn text_rate(c: &Value, fmt: usize, live: bool) -> Option<String> {
             let r = c["r"].as_i64().unwrap();
             let rate = if live { format!("{}ms", r) } else { format!("{} seconds", 30 * r) };
             Some(match fmt {
-                0 => format!(
-                    "{}appenders:\n  cap:\n    kind: capture\n    tag: v{}\nroot:\n  level: info\n  appenders:\n    - cap\nloggers:\n  deep:\n    level: {}\n",
-                    if r > 0 { format!("refresh_rate: {}\n", rate) } else { String::new() }, v, deep_level(v)),
+                0 => {
+                    // versions 4k+2 and 4k+3 are the text of the version two below with one more line break at the end
+                    let (b, extra) = if v.rem_euclid(4) >= 2 { (v - 2, "\n") } else { (v, "") };
+                    format!(
+                        "{}root:\n  level: info\n  appenders:\n    - cap\nloggers:\n  deep:\n    level: {}\nappenders:\n  cap:\n    kind: capture\n    tag: |+\n      v{}\n{}",
+                        if r > 0 { format!("refresh_rate: {}\n", rate) } else { String::new() }, deep_level(v), b, extra)
+                }
                 1 => {
                     let mut doc = json!({"appenders": {"cap": {"kind": "capture", "tag": format!("v{}", v)}},
                                          "root": {"level": "info", "appenders": ["cap"]}, "loggers": {"deep": {"level": deep_level(v)}}});
